@@ -16,6 +16,7 @@ package main
 
 import (
 	"fmt"
+	"os"
 	"sort"
 	"strings"
 )
@@ -57,6 +58,37 @@ type po struct {
 }
 
 func (p *po) add(t *Term) { p.cons = append(p.cons, t) }
+
+// clocks are bit-vectors (pure QF_BV formulas bit-blast well); SYMGO_INTCLOCK=1 selects integers
+const clockW = 12
+
+func clockSort() Sort {
+	if os.Getenv("SYMGO_BVCLOCK") != "" {
+		return BV(clockW)
+	}
+	return IntSort
+}
+
+func (p *po) clockConst(v int64) *Term {
+	if clockSort().K == SInt {
+		return p.tb.IntConst64(v)
+	}
+	return p.tb.BVConst(uint64(v), clockW)
+}
+
+func (p *po) le(a, b *Term) *Term {
+	if a.Sort.K == SInt {
+		return p.tb.Cmp("<=", IntTy{}, a, b)
+	}
+	return p.tb.Cmp("<=", IntTy{clockW, false}, a, b)
+}
+
+func (p *po) lt(a, b *Term) *Term {
+	if a.Sort.K == SInt {
+		return p.tb.Cmp("<", IntTy{}, a, b)
+	}
+	return p.tb.Cmp("<", IntTy{clockW, false}, a, b)
+}
 
 func (p *po) freshSym(s Sort, tag string) *Term {
 	p.fresh++
@@ -163,8 +195,12 @@ func (b *bmc) buildPO() *po {
 	}
 	for _, ed := range b.edges {
 		p.x[ed] = tb.Sym(fmt.Sprintf("x!%d", ed.ID), BoolSort)
-		p.c[ed] = tb.Sym(fmt.Sprintf("c!%d", ed.ID), IntSort)
-		p.add(tb.Cmp("<=", IntTy{}, tb.IntConst64(0), p.c[ed]))
+		p.c[ed] = tb.Sym(fmt.Sprintf("c!%d", ed.ID), clockSort())
+		if clockSort().K == SInt {
+			p.add(tb.Cmp("<=", IntTy{}, tb.IntConst64(0), p.c[ed]))
+		} else {
+			p.add(tb.Not(tb.Eq(p.c[ed], p.clockConst(-1))))
+		}
 		if p.outN[ed.Tid] == nil {
 			p.outN[ed.Tid] = map[string][]*l2Edge{}
 		}
@@ -210,14 +246,14 @@ func (b *bmc) buildPO() *po {
 				case len(preds) > 0:
 					var alts []*Term
 					for _, pr := range preds {
-						alts = append(alts, tb.And(p.x[pr], tb.Cmp("<", IntTy{}, p.c[pr], p.c[ed])))
+						alts = append(alts, tb.And(p.x[pr], p.lt(p.c[pr], p.c[ed])))
 					}
 					p.add(tb.Implies(p.x[ed], tb.Or(alts...)))
 				case t.Spawned:
 					sp := p.spawnE[fmt.Sprintf("%d|%s", t.Tid, src)]
 					var alts []*Term
 					for _, se := range sp {
-						alts = append(alts, tb.And(p.x[se], tb.Cmp("<", IntTy{}, p.c[se], p.c[ed])))
+						alts = append(alts, tb.And(p.x[se], p.lt(p.c[se], p.c[ed])))
 					}
 					p.add(tb.Implies(p.x[ed], tb.Or(alts...)))
 				case t.Name == "finally":
@@ -242,7 +278,7 @@ func (b *bmc) buildPO() *po {
 					}
 					for _, oe := range b.edges {
 						if oe.Tid != t.Tid {
-							cs = append(cs, tb.Implies(p.x[oe], tb.Cmp("<", IntTy{}, p.c[oe], p.c[ed])))
+							cs = append(cs, tb.Implies(p.x[oe], p.lt(p.c[oe], p.c[ed])))
 						}
 					}
 					p.add(tb.Implies(p.x[ed], tb.And(cs...)))
@@ -456,15 +492,18 @@ func (b *bmc) buildPO() *po {
 				}
 				cands = append(cands, w)
 			}
-			// from the initial state
+			// lc = clock of the latest executed write before the read (-1: none, the initial value is read);
+			// linear in the number of candidate writes
+			lc := tb.Sym(fmt.Sprintf("lc!%s!%d", n, ri), clockSort())
+			minus1 := p.clockConst(-1)
+			for _, w2 := range cands {
+				p.add(tb.Implies(tb.And(p.x[r.edge], p.x[w2.edge], p.lt(p.c[w2.edge], cr)), p.le(p.c[w2.edge], lc)))
+			}
 			{
 				s := tb.Sym(fmt.Sprintf("rf!%s!%d!init", n, ri), BoolSort)
-				var cs []*Term
+				cs := []*Term{tb.Eq(lc, minus1)}
 				if l.init != nil {
 					cs = append(cs, eqVals(l.init))
-				}
-				for _, w2 := range cands {
-					cs = append(cs, tb.Implies(p.x[w2.edge], tb.Cmp("<", IntTy{}, cr, p.c[w2.edge])))
 				}
 				p.add(tb.Implies(s, tb.And(cs...)))
 				sels = append(sels, s)
@@ -472,15 +511,7 @@ func (b *bmc) buildPO() *po {
 			for wi, w := range cands {
 				s := tb.Sym(fmt.Sprintf("rf!%s!%d!%d", n, ri, wi), BoolSort)
 				cw := p.c[w.edge]
-				cs := []*Term{p.x[w.edge], tb.Cmp("<", IntTy{}, cw, cr), eqVals(w.comps)}
-				for _, w2 := range cands {
-					if w2 == w {
-						continue
-					}
-					c2 := p.c[w2.edge]
-					cs = append(cs, tb.Implies(p.x[w2.edge], tb.Or(tb.Cmp("<", IntTy{}, c2, cw), tb.Cmp("<", IntTy{}, cr, c2))))
-				}
-				p.add(tb.Implies(s, tb.And(cs...)))
+				p.add(tb.Implies(s, tb.And(p.x[w.edge], p.lt(cw, cr), tb.Eq(lc, cw), eqVals(w.comps))))
 				sels = append(sels, s)
 			}
 			p.add(tb.Implies(p.x[r.edge], tb.Or(sels...)))
@@ -563,15 +594,17 @@ func (b *bmc) mayPrecede(a, c *l2Edge) bool {
 }
 
 // poTrace orders the executed edges of the model by clock.
-func (b *bmc) poTrace() []string {
+func (b *bmc) poTrace() []string { return b.poTraceFrom(b.solver) }
+
+func (b *bmc) poTraceFrom(fs *Solver) []string {
 	p := b.po
 	var xs, cs []*Term
 	for _, ed := range b.edges {
 		xs = append(xs, p.x[ed])
 		cs = append(cs, p.c[ed])
 	}
-	xv := b.solver.Values(xs)
-	cv := b.solver.Values(cs)
+	xv := fs.Values(xs)
+	cv := fs.Values(cs)
 	type ev struct {
 		c  int64
 		ed *l2Edge
@@ -663,7 +696,7 @@ func (b *bmc) poDeadlock() *Term {
 			}
 			for _, w2 := range l.writes {
 				if w2 != w {
-					cs = append(cs, tb.Implies(p.x[w2.edge], tb.Cmp("<", IntTy{}, p.c[w2.edge], p.c[w.edge])))
+					cs = append(cs, tb.Implies(p.x[w2.edge], p.lt(p.c[w2.edge], p.c[w.edge])))
 				}
 			}
 			p.cons = append(p.cons, tb.Implies(sw, tb.And(cs...)))
@@ -774,12 +807,12 @@ func (b *bmc) poRaces() {
 				}
 				label := fmt.Sprintf("auto:race: %s / %s", d1, d2)
 				// x immediately before y
-				cs := []*Term{p.x[x.ed], p.x[y.ed], tb.Cmp("<", IntTy{}, p.c[x.ed], p.c[y.ed])}
+				cs := []*Term{p.x[x.ed], p.x[y.ed], p.lt(p.c[x.ed], p.c[y.ed])}
 				for _, o := range b.edges {
 					if o == x.ed || o == y.ed {
 						continue
 					}
-					cs = append(cs, tb.Implies(p.x[o], tb.Or(tb.Cmp("<", IntTy{}, p.c[o], p.c[x.ed]), tb.Cmp("<", IntTy{}, p.c[y.ed], p.c[o]))))
+					cs = append(cs, tb.Implies(p.x[o], tb.Or(p.lt(p.c[o], p.c[x.ed]), p.lt(p.c[y.ed], p.c[o]))))
 				}
 				b.viol[label] = append(b.viol[label], tb.And(cs...))
 			}
